@@ -56,6 +56,24 @@ impl<'a> Interp<'a> {
         for _ in 0..parts {
             self.parts.push(MPart::default());
         }
+        // topics without partitions beside the topic under test (their emptiness must never matter)
+        if self.case.empty_siblings {
+            let n = self.node();
+            let r = n.block_on(async {
+                for t in [1u32, TOPIC + 5] {
+                    self.cl().create_topic(&sid(), &format!("e{t}"), 0, CompressionAlgorithm::None, None, Some(t), IggyExpiry::NeverExpire, MaxTopicSize::Unlimited).await?;
+                }
+                for st in [1u32, 2, STREAM + 3, STREAM + 4] {
+                    self.cl().create_stream(&format!("x{st}"), Some(st)).await?;
+                    self.cl().create_topic(&Identifier::numeric(st).unwrap(), "e", 0, CompressionAlgorithm::None, None, Some(1), IggyExpiry::NeverExpire, MaxTopicSize::Unlimited).await?;
+                }
+                Ok::<(), IggyError>(())
+            });
+            if let Err(e) = r {
+                return Err(self.fail(&prop, "setup", format!("topics without partitions: {e}")));
+            }
+            self.out.label("topics-without-partitions-beside");
+        }
         // a sibling topic in the same stream, filled before the ops start (its content must never matter to t1)
         if self.case.sibling_segs > 0 {
             let total = (self.cfg.segment_size.saturating_mul(self.case.sibling_segs as u64)).min(4_000_000);
@@ -172,6 +190,7 @@ impl<'a> Interp<'a> {
             POp::UpdateTopic { expiry, max_size } => self.op_update(expiry, max_size),
             POp::AddPartitions(n) => self.op_add_parts(*n),
             POp::DelPartitions(n) => self.op_del_parts(*n),
+            POp::ReplaceParts(n) => self.op_replace_parts(*n),
         }
     }
 
